@@ -153,6 +153,34 @@ def gen(args) -> list:
             nod = rnd.choice([0, NPD - 1, rnd.randrange(NPD)])
             nt = LocalTime.from_nanoseconds_since_midnight(nod)
             evs.append(result({"op": "with_time", "v": obs(v), "t": [nod // 10**9, nod % 10**9], **base}, lambda: v.with_time_adjuster(lambda _t: nt)))
+        elif c < 0.87:
+            # every property of the four types reads the same local date-time (calendar fields and time-of-day fields)
+            kind = rnd.choice(["odt", "od", "ot", "zdt"])
+            ldt = v.local_date_time
+            x = v if kind == "odt" else v.to_offset_date() if kind == "od" else v.to_offset_time() if kind == "ot" else v.in_fixed_zone()
+            dnames = ["year", "month", "day", "day_of_year", "year_of_era"]
+            tnames = ["hour", "minute", "second", "millisecond", "tick_of_second", "nanosecond_of_second", "clock_hour_of_half_day"]
+            if kind == "zdt":
+                dnames, tnames = ["year", "month", "day", "day_of_year"], ["hour", "minute", "second"]
+            ev = {"op": "accessors", "kind": kind, "v": obs(v), "acc": [], "loc": []}
+            try:
+                if kind != "ot":
+                    ev["acc"] += [getattr(x, a) for a in dnames] + [x.day_of_week.value]
+                    ev["loc"] += [getattr(ldt, a) for a in dnames] + [ldt.day_of_week.value]
+                    if kind != "zdt":
+                        ev["acc"].append(x.era.name)
+                        ev["loc"].append(ldt.era.name)
+                if kind != "od":
+                    ev["acc"] += [getattr(x, a) for a in tnames]
+                    ev["loc"] += [getattr(ldt, a) for a in tnames]
+                    ev["tod"] = [x.hour, x.minute, x.second]
+                if kind in ("odt", "ot"):
+                    ev["acc"].append(str(x.tick_of_day))
+                    ev["loc"].append(str(ldt.tick_of_day))
+                ev["acc"], ev["loc"] = [str(a) for a in ev["acc"]], [str(a) for a in ev["loc"]]
+            except Exception as e:  # noqa: BLE001
+                ev["exc"] = type(e).__name__
+            evs.append(ev)
         elif c < 0.9:
             od, ot = v.to_offset_date(), v.to_offset_time()
             evs.append({"op": "parts", "v": obs(v), "od_day": od.date._days_since_epoch, "od_off": od.offset.seconds, "od_cal": od.calendar.id,
@@ -194,7 +222,38 @@ def gen(args) -> list:
             i = rinst(cal)
             iv = z.get_zone_interval(i)
             ivd = {"start": t3i(iv._raw_start), "end": t3i(iv._raw_end), "wall": iv.wall_offset.seconds}
-            if rnd.random() < 0.5:
+            cz = rnd.random()
+            if cz < 0.3:
+                # the (local date-time, zone, offset) constructor: accepts exactly the offset the zone has at local - offset
+                from pyoda_time import ZonedDateTime
+
+                if iv.has_end and rnd.random() < 0.7:
+                    # within a day either side of a transition, where the neighbouring interval's offset is the tempting wrong answer
+                    ns = proj.ns_from_t3(t3i(iv._raw_end)) + rnd.choice([-1, 0, 1, rnd.randint(-NPD, NPD), rnd.randint(-4 * 3600 * 10**9, 4 * 3600 * 10**9)])
+                    if imin <= ns <= imax:
+                        i = Instant._ctor(days=ns // NPD, nano_of_day=ns % NPD)
+                        iv = z.get_zone_interval(i)
+                offs = {iv.wall_offset.seconds}
+                try:
+                    if iv.has_end:
+                        offs.add(z.get_zone_interval(iv.end).wall_offset.seconds)
+                    if iv.has_start:
+                        offs.add(z.get_zone_interval(iv.start - Duration.epsilon).wall_offset.seconds)
+                except Exception:  # noqa: BLE001
+                    pass
+                off = rnd.choice(sorted(offs) + [iv.wall_offset.seconds, rnd.randint(-64800, 64800)])
+                loc_ns = proj.ns_from_t3(proj.t3_instant(i)) + iv.wall_offset.seconds * 10**9
+                cand_ns = loc_ns - off * 10**9
+                ld = loc_ns // NPD
+                if not (imin <= cand_ns <= imax and cal._min_days <= ld <= cal._max_days and imin <= loc_ns <= imax):
+                    continue
+                cand = Instant._ctor(days=cand_ns // NPD, nano_of_day=cand_ns % NPD)
+                ivc = z.get_zone_interval(cand)
+                ldt = LocalDate._ctor(days_since_epoch=ld, calendar=cal).at(LocalTime.from_nanoseconds_since_midnight(loc_ns % NPD))
+                ev = {"op": "zoned_ctor", "loc": proj.t3_from_ns(loc_ns), "off": off, "cal": cal.id, "zone": z.id, "cand": proj.t3_from_ns(cand_ns),
+                      "iv": {"start": t3i(ivc._raw_start), "end": t3i(ivc._raw_end), "wall": ivc.wall_offset.seconds}}
+                evs.append(result(ev, lambda: ZonedDateTime(local_date_time=ldt, zone=z, offset=Offset.from_seconds(off)), zone=True))
+            elif cz < 0.65:
                 ev = {"op": "zoned", "inst": proj.t3_instant(i), "cal": cal.id, "zone": z.id, "iv": ivd}
                 route = rnd.randrange(2)
                 ev["route"] = route
